@@ -223,6 +223,13 @@ Ltac dmatch H :=
          | context [match ?x with _ => _ end] => destruct x eqn:?
          end.
 
+(* contradictory program-point equations left by dmatch *)
+Ltac pcdiscr :=
+  try discriminate;
+  try (match goal with
+       | H : match ?l with _ => _ end = _ |- _ => destruct l; discriminate
+       end).
+
 (* which program point produces which effect *)
 Lemma eff_remup f a t n t' :
   decide_all f a t = (ERemUp n, t') -> t_pc t = UUnlock /\ n = lock_name (t_week t).
